@@ -264,6 +264,7 @@ func runC09(c *run.Ctx) {
 	c.Set("table_cells_per_backend", total/3)
 	hist := c09Histories(c, s, sdl)
 	hist += c09Subscription(c)
+	hist += c09Generated(c)
 	c.MinNontriv = (total + hist) * 2 / 3
 }
 
